@@ -211,6 +211,44 @@ def run(ck):
                             want = tabs["save"].get(ext) if tabs else None
                             if tabs and (b.log != [want] or b2.log != [tabs["load"].get(ext)]):
                                 ck.disagree("methods called by the dispatch", inp, [b.log, b2.log], [want, tabs["load"].get(ext)])
+        # ---- the second family of data carriers (MatrixData: rate matrices, state-vector and density-matrix evolutions) ------
+        from quantarhei import StateVector, ReducedDensityMatrix
+        from quantarhei.qm.liouvillespace.rates.ratematrix import RateMatrix
+        from quantarhei.qm.propagators.statevectorevolution import StateVectorEvolution
+        from quantarhei.qm.propagators.dmevolution import ReducedDensityMatrixEvolution
+        for rep in range(reps):
+            nst = rng.choice([2, 3, 4]); ntm = rng.choice([1, 2, 5])
+            tam = TimeAxis(0.0, ntm, 1.0)
+
+            def carriers():
+                rd = numpy.array([[rng.uniform(-3, 3) for _ in range(nst)] for _ in range(nst)])
+                sv = numpy.array([[rng.uniform(-1, 1) + 1j * rng.uniform(-1, 1) * 10.0 ** rng.choice([-9, 0]) for _ in range(nst)] for _ in range(ntm)])
+                hm = numpy.array([[[rng.uniform(-1, 1) + 1j * rng.uniform(-1, 1) for _ in range(nst)] for _ in range(nst)] for _ in range(ntm)])
+                hm = (hm + numpy.conj(numpy.transpose(hm, (0, 2, 1)))) / 2.0
+                r = RateMatrix(dim=nst); r.data = rd.copy()
+                e = StateVectorEvolution(tam, StateVector(data=numpy.ones(nst, dtype=complex))); e.data = sv.copy()
+                m_ = ReducedDensityMatrixEvolution(tam, ReducedDensityMatrix(data=numpy.eye(nst, dtype=complex) / nst)); m_.data = hm.copy()
+                return [("RateMatrix", r, rd, lambda: RateMatrix(dim=nst)),
+                        ("StateVectorEvolution", e, sv, lambda: StateVectorEvolution(tam, StateVector(data=numpy.ones(nst, dtype=complex)))),
+                        ("ReducedDensityMatrixEvolution", m_, hm,
+                         lambda: ReducedDensityMatrixEvolution(tam, ReducedDensityMatrix(data=numpy.eye(nst, dtype=complex) / nst)))]
+            for ext in (".dat", ".txt", ".npy", ".npz"):
+                for name, obj, d0, fresh in carriers():
+                    inp = {"carrier": name, "format": ext, "states": nst, "times": ntm}
+                    ck.case(("matrixdata", name, ext, nst, ntm, rep), nontrivial=True, kind="format-matrixdata", format=ext, carrier=name)
+                    fn = os.path.join(tmp, "m%s" % ext)
+                    try:
+                        with quiet():
+                            obj.save_data(fn)
+                            o2 = fresh()
+                            o2.load_data(fn)
+                    except Exception as e:
+                        ck.fail("raises:matrixdata:%s:%s" % (name, ext), "save_data / load_data raised %r" % (e,), inp)
+                        continue
+                    got = numpy.asarray(o2.data)
+                    if got.size != d0.size or numpy.abs(got.reshape(d0.shape) - d0).max() > 1e-15 * max(1.0, float(numpy.abs(d0).max())):
+                        ck.fail("values:matrixdata:%s:%s" % (name, ext), "imported values differ from the exported ones", inp,
+                                float(numpy.abs(got.reshape(d0.shape) - d0).max()) if got.size == d0.size else list(got.shape))
         for ext in FORMATS + [".csv", ".h5", ""]:
             lines.append("dispatch %s" % (ext or "NONE"))
             b = Box(numpy.arange(3.0))
